@@ -273,6 +273,8 @@ def render_want(k, part, want_tokens, prog, rot):
             lines += ['    ...']
         lines += last.split('\n')
         return lines
+    if w == 'nontb' and rot % 3:
+        return [tok_text(t, prog) for t in want_tokens] + ['second line of text %d' % k] * (rot % 3)
     return [tok_text(t, prog) for t in want_tokens]
 
 
